@@ -58,8 +58,15 @@ Proof.
   intros Hi Hao Hcl Hn. cbv zeta.
   assert (Hl : last_bytes_bits s < 16) by (destruct Hi as [_ [_ [_ H]]]; exact H).
   pose proof (header_len_le (last_bytes s) (last_bytes_bits s) (rem_meta s) Hl Hn) as Hlen.
-  unfold write_metadata_header. rewrite (mhb_split _ _ _ Hl Hcl Hn) in *. cbn [snd] in Hlen.
-  set (v := last_bytes s + 2 ^ last_bytes_bits s * mh_val (rem_meta s)) in *.
+  assert (Hlb' : exists lb', lb' < 2 ^ last_bytes_bits s
+            /\ metadata_header_bits (last_bytes s) (last_bytes_bits s) (rem_meta s) = metadata_header_bits lb' (last_bytes_bits s) (rem_meta s)
+            /\ lbits s = N_to_bits (N.to_nat (last_bytes_bits s)) lb').
+  { destruct Hcl as [[Z M]|Hcl]; [|exists (last_bytes s); split; [exact Hcl|split; reflexivity]].
+    exists 0. unfold lbits. rewrite Z. split; [reflexivity|]. split; [|reflexivity].
+    unfold metadata_header_bits. change (2 ^ (8 * (0 / 8 + 1))) with 256. rewrite M. reflexivity. }
+  destruct Hlb' as (lb' & Hcl' & Emhb & Elb).
+  unfold write_metadata_header. rewrite Emhb in *. rewrite (mhb_split _ _ _ Hl Hcl' Hn) in *. cbn [snd] in Hlen.
+  set (v := lb' + 2 ^ last_bytes_bits s * mh_val (rem_meta s)) in *.
   set (k := (last_bytes_bits s + mh_len (rem_meta s) + 7) / 8) in *.
   split.
   - unfold wire. rewrite (pend_nil s Hao).
@@ -67,11 +74,11 @@ Proof.
                                     (le_bytes 16 v) k (total_out_ (upd_bits s 0 0))) SMetaBody) = le_bytes (N.to_nat k) v).
     { unfold pend, view. fs. unfold takeN, skipN. cbn [N.to_nat skipn]. apply firstn_le_bytes. lia. }
     rewrite Hp. unfold lbits at 1. fs. cbn [N.to_nat N_to_bits]. rewrite !app_nil_r, bytes_bits_app, <- app_assoc. f_equal.
-    rewrite le_bytes_bits. unfold lbits, meta_hdr_bits. fold k.
+    rewrite le_bytes_bits. rewrite Elb. unfold meta_hdr_bits. fold k.
     destruct (fill_exists (last_bytes_bits s) (mh_len (rem_meta s))) as (f & Ef & Hf). fold k in Ef.
     replace (8 * N.to_nat k)%nat with (N.to_nat (last_bytes_bits s) + N.to_nat (8 * k - last_bytes_bits s))%nat by lia.
     unfold v. replace (2 ^ last_bytes_bits s) with (2 ^ N.of_nat (N.to_nat (last_bytes_bits s))) by (rewrite N2Nat.id; reflexivity).
-    apply n2b_split. rewrite N2Nat.id. exact Hcl.
+    apply n2b_split. rewrite N2Nat.id. exact Hcl'.
   - fs. split; [reflexivity|]. split; [reflexivity|]. split; [|repeat split; reflexivity].
     destruct Hi as [Hc [Hp [Ht _]]]. unfold inv, cursor_ok, pad_ok. fs. rewrite lenN_le_bytes.
     split; [lia|]. split; [intros H; discriminate H|]. split; lia.
@@ -267,7 +274,7 @@ Proof.
            cbn [segs_bits flat_map seg_bits]. rewrite app_nil_r, <- app_assoc. rewrite Hrem, Hlen. reflexivity.
         -- constructor.
         -- constructor.
-        -- split; [exact Hi'|]. rewrite O, Ho1. split; [exact Hok|]. split; [exact Htc|]. unfold clean. rewrite L1', L2'. reflexivity.
+        -- split; [exact Hi'|]. rewrite O, Ho1. split; [exact Hok|]. split; [exact Htc|]. unfold clean. rewrite L1', L2'. exact cleanv_00.
         -- rewrite Hp', Hp1. reflexivity.
         -- eapply same_cfg_trans; [exact Hc1|exact Hc'].
         -- destruct He as [[E1 E2]|[E1 E2]]; [left; split; assumption|right; left; repeat split; assumption].
